@@ -46,9 +46,14 @@ CallPush(t, us, hd) ==
     /\ \A i \in 1..Len(us) : ~InQ(us[i])            \* a unit is pushed only by its owner
     /\ pend' = [pend EXCEPT ![t] = [op |-> "push", us |-> us, hd |-> hd /\ deque, done |-> FALSE, res |-> <<>>]]
     /\ UNCHANGED <<q, deque>>
+\* long = a blocking pop whose time-out is far beyond the end of the scenario
+CallPopL(t, k, tl, long) ==
+    /\ IsIdle(t)
+    /\ pend' = [pend EXCEPT ![t] = [op |-> "pop", k |-> k, tl |-> tl /\ deque, long |-> long, done |-> FALSE, res |-> <<>>]]
+    /\ UNCHANGED <<q, deque>>
 CallPop(t, k, tl) ==
     /\ IsIdle(t)
-    /\ pend' = [pend EXCEPT ![t] = [op |-> "pop", k |-> k, tl |-> tl /\ deque, done |-> FALSE, res |-> <<>>]]
+    /\ pend' = [pend EXCEPT ![t] = [op |-> "pop", k |-> k, tl |-> tl /\ deque, long |-> FALSE, done |-> FALSE, res |-> <<>>]]
     /\ UNCHANGED <<q, deque>>
 CallRemove(t, u) ==
     /\ IsIdle(t)
@@ -62,6 +67,7 @@ Lin(t) ==
               /\ pend' = [pend EXCEPT ![t].done = TRUE]
          [] pend[t].op = "pop" ->
               LET r == PopK(q, pend[t].k, pend[t].tl, <<>>) IN
+              /\ (pend[t].long => q # <<>>)       \* a blocking pop waits for a unit (C19)
               /\ q' = r[2]
               /\ pend' = [pend EXCEPT ![t].done = TRUE, ![t].res = r[1]]
          [] pend[t].op = "remove" ->
